@@ -10,6 +10,7 @@ import (
 	"net"
 	"os"
 	"strconv"
+	"sync"
 	"time"
 )
 
@@ -21,6 +22,8 @@ var (
 type TNC struct {
 	conn  net.Conn
 	demux *demux
+
+	writeMu sync.Mutex // Serialises frames written to conn (a frame is written in two parts).
 }
 
 func newTNC(conn net.Conn) *TNC {
@@ -93,7 +96,9 @@ func (t *TNC) RegisterPort(port int, mycall string) (*Port, error) {
 }
 
 func (t *TNC) write(f frame) error {
+	t.writeMu.Lock()
 	_, err := f.WriteTo(t.conn)
+	t.writeMu.Unlock()
 	if err == nil && f.DataKind != kindOutstandingFramesForConn {
 		debugf("-> %v", f)
 	}
